@@ -21,7 +21,7 @@ pub fn run(id: usize, rng: &mut Rng) -> String {
     let trickle: usize = if rng.chance(1, 3) { 9 } else { 0 };
     let total: usize = bursts.iter().map(|b| b.0).sum();
     let short: Vec<bool> = (0..total).map(|_| rng.chance(1, 5)).collect();
-    let cfg = Config { seed: rng.next(), p_timer: *rng.pick(&[0u64, 0, 20]), p_spurious: *rng.pick(&[0u64, 0, 0, 40, 200]), p_preempt: *rng.pick(&[0u64, 0, 0, 100, 400]), ..Config::default() };
+    let cfg = Config { seed: rng.next(), p_timer: *rng.pick(&[0u64, 0, 20]), p_spurious: *rng.pick(&[0u64, 0, 0, 40, 200]), p_preempt: *rng.pick(&[0u64, 0, 0, 100, 400]), max_steps: 100_000, ..Config::default() };
     let b2 = bursts.clone();
     let s2 = short.clone();
     let ((started, after_burst, idle, dropped, q1, q2, q3, trickle_live), rep) = sched::run(&cfg, move || {
@@ -125,7 +125,7 @@ pub fn run(id: usize, rng: &mut Rng) -> String {
         if q3 { 1 } else { 0 },
         if rep.aborted { 1 } else { 0 },
         rep.clock
-    )
+    ) + &format!(" steps={}", rep.steps)
 }
 
 /// Event log -> labels of the Lean LTS `Lts.Pool`:
